@@ -32,6 +32,12 @@ impl SwiftField for Field33B {
     where
         Self: Sized,
     {
+        if !input.is_ascii() {
+            return Err(ParseError::InvalidFormat {
+                message: "Field 33B must contain only ASCII characters".to_string(),
+            });
+        }
+
         // Field33B format: 3!a15d (currency + amount)
         if input.len() < 4 {
             // Minimum: 3 chars currency + 1 digit amount
